@@ -162,6 +162,7 @@ func runC19(r *Runner) string {
 		{"base58", "wif", "addrmake", "addrdecode", "bech32", "xkey"},
 		{"xkey"},
 		{"rpcstorm"},
+		{"storm"},
 		{"mnemonic"},
 		{"txparse", "sighash"},
 		{"rpc"},
